@@ -211,6 +211,6 @@ func RunSched(w *tr.Writer, tid int, s Sched) error {
 		final = append(final, []any{b, res, val})
 	}
 	w.Emit(map[string]any{"tid": tid, "op": "sched", "blocks": s.Blocks, "writes": s.Writes, "pre": s.Pre,
-		"committers": s.Committers, "results": results, "final": final, "diverged": diverged, "drained": drained, "nsched": len(s.Sched)})
+		"committers": s.Committers, "results": results, "final": final, "diverged": diverged, "drained": drained, "nsched": len(s.Sched), "sched": s.Sched, "readers": s.Readers})
 	return nil
 }
